@@ -277,6 +277,13 @@ class Sim(object):
                 env[st['x']] = ('ret', self.ev(env, st['e']))
             elif op == 'append':
                 env[st['x']][1].append(self.ev(env, st['e']))     # in-place mutation of a value the program holds
+            elif op == 'stamp':
+                # an intercepted body that changes the argument it was handed, in place (a driver stamping an id on the document)
+                kind, v = env.get(st['x'], ('ret', None))
+                if isinstance(v, list):
+                    v.append('<stamped by the callee>')
+                elif isinstance(v, dict):
+                    v['<stamped by the callee>'] = 1
             elif op in ('discard', 'force', 'enable', 'disable'):
                 if decorated:
                     # (`enable` / `disable`: the service's kill switch flipped while the operation runs)
@@ -386,7 +393,7 @@ class Sim(object):
                 self.static = static
 
             def prepare_output_for_recording(self, interception_key, args, kwargs):
-                return {'W': tuple(args)}
+                return {'W': copy.deepcopy(tuple(args))}      # a handler that serialises what was sent, at the time it is sent
 
             def restore_output_from_recording(self, recorded_data):
                 return recorded_data
@@ -785,6 +792,8 @@ def model_request(case):
     def script(s):
         out = []
         for st in s:
+            if st.get('op') == 'stamp':
+                continue        # (values are immutable texts in the model: what was sent is what the call was handed)
             st = dict(st)
             if 'e' in st:
                 st['e'] = expr(st['e'])
